@@ -10,7 +10,9 @@
   C15-REMB    the SSRC list reported is the key list of `ssrcs`, which is keyed only by the ssrc argument and holds
               at most 255 entries at every return; the bookkeeping statements, evaluated on tables around the limit, keep the
               SSRC of the packet just received and evict the oldest
-Does not decide: the numeric behaviour of the Kalman/AIMD pipeline.
+  C15-PIPE    the whole RemoteBitrateEstimator.add pipeline evaluated on packet histories at a small send-time origin and across the
+              24-bit abs-send-time wrap: never raises, results REMB-encodable with exactly the SSRCs seen, identical estimates at both origins
+Does not decide: the numeric behaviour of the Kalman/AIMD pipeline beyond these histories.
 """
 from __future__ import annotations
 
